@@ -36,7 +36,8 @@ def gen_imports(r, g, k):
 
 # module names that sort before "__future__" (upper case, leading underscore) next to the usual ones
 MODS2 = G.MODS + [['Umod'], ['PIL', 'img'], ['_A']]
-ROOTS = ('pkg', 'm', 'a', 'n', 'Umod', 'PIL', '_A')
+ROOTS = ('pkg', 'm', 'a', 'n', 'Umod', 'PIL', '_A', 'top')
+PACKAGE = "top.mid.low"            # the generated program runs as the module top.mid.low.prog
 SUBMODS = ("sub", "b", "img")
 FUTURES = ["division", "print_function", "absolute_import"]
 
@@ -66,10 +67,37 @@ def make_case(seed, i):
     if r.random() < .3:
         prog.append(["expr", ["op", "doc", []]])
     fut = r.random() < .25
+    rel_reads = []
     for seg in range(r.choice([1, 1, 2, 3])):
         if seg == 0 and fut:
             prog.append(["from", ["__future__"], [[r.choice(FUTURES), None]]])
         prog += gen_imports(r, g, r.randint(1, 4))
+        if r.random() < .2:
+            # relative imports: every level of the enclosing package has its own identity
+            lvl = r.choice([1, 2, 2, 3])
+            mod = [""] * lvl + r.choice([[], [], ["m"]])
+            nm = r.choice(["tool", "d"])
+            al = r.choice([None, None, "rt"])
+            prog.append(["from", mod, [[nm, al]]])
+            rel_reads.append(al or nm)
+        deco_def = None
+        if r.random() < .2:
+            # a decorated (async) def right after the import block, comment / blank lines in between; the decorators are
+            # the only readers of their imports
+            nd = r.randint(1, 3)
+            decos = []
+            for j in range(nd):
+                alias = "dk%d%d" % (seg, j)
+                prog.append(r.choice([["from", ["m"], [["d", alias]]], ["import", [[["pkg", "sub"], alias]]]]))
+                decos.append(["op", "call", [["load", G.DEC, []], ["load", alias, [r.choice(G.ATTRS)]]]])
+            for _ in range(r.randint(0, 2)):
+                prog.append(r.choice([["blank"], ["comment", "note"]]))
+            P = {"posonly": [], "args": [], "vararg": None, "kwonly": [], "kwarg": None, "defaults": [], "kw_defaults": [],
+                 "async": r.random() < .6}
+            fn = "fd%d" % seg
+            deco_def = [["def", fn, decos, P, None, [["expr", ["load", r.choice(G.NAMES), [r.choice(G.ATTRS)]]]]],
+                        ["assign", [["n", fn]], ["op", "call", [["load", G.REG, []], ["load", fn, []]]]]]
+            prog += deco_def
         if r.random() < .25:
             # a package and one of its submodules, plain, in one block; the submodule is read through the package
             root, sub = r.choice([("pkg", "sub"), ("a", "b"), ("PIL", "img")])
@@ -87,6 +115,8 @@ def make_case(seed, i):
         # reads of imported-looking names so that operations on them are observed
         for _ in range(r.randint(0, 2)):
             prog.append(["expr", ["load", r.choice(G.NAMES), [r.choice(G.ATTRS)]]])
+    for nm in rel_reads:
+        prog.append(["expr", ["load", nm, [r.choice(G.ATTRS)]]])
     add_docstrings(r, prog, top=True)
     # imports that are read only by a doctest example (or named only in braces)
     docs = []
@@ -98,6 +128,9 @@ def make_case(seed, i):
     for j, d in enumerate(docs[:3]):
         if r.random() < .7:
             alias = "dt%d" % j
+            if r.random() < .3:
+                # the first example of the docstring documents a SyntaxError: pyflyby must skip it and go on
+                d[1].insert(0, ["bad", r.choice(["print 1", "def f(:", "x ="])])
             if r.random() < .75:
                 d[1].append(["expr", ["load", alias, [r.choice(G.ATTRS)]]])
             else:
@@ -117,6 +150,8 @@ def gen_docstring(r):
             exs.append(["expr", ["op", "call", [ld, ["load", r.choice(G.NAMES), []]]]])
         else:
             exs.append(["assign", [["n", r.choice(G.NAMES)]], ld])
+    if r.random() < .1:
+        exs.insert(0, r.choice([["import", [[["m"], None]]], ["from", ["pkg"], [["c", r.choice(G.NAMES)]]]]))
     braces = [r.choice(G.NAMES) for _ in range(r.choice([0, 0, 1, 2]))]
     return ["doc", exs, braces]
 
@@ -158,13 +193,12 @@ def docstrings(prog):
 
     def ex_src(x):
         rr = G.Render(G._Recorder())
-        if x[0] == "expr":
-            return rr.expr(x[1])[0]
-        return " = ".join([rr.target(y)[0] for y in x[1]] + [rr.expr(x[2])[0]])
+        rr.stmt1(x, 0)
+        return rr.lines[0]
 
     def f(s, p):
         if s[0] == "doc" and s[1]:
-            out.append([ex_src(x) for x in s[1]])
+            out.append([ex_src(x) for x in s[1] if x[0] != "bad"])
     c05.walk(prog, f)
     return out
 
@@ -188,7 +222,7 @@ def stmt_imports(s):
     """(fullname, import_as) pairs of an import statement of the term"""
     if s[0] == "import":
         return [[".".join(d), a or ".".join(d)] for d, a in s[1]]
-    return [[".".join(s[1]) + "." + n, a or n] for n, a in s[2]]
+    return [[".".join(s[1] + [n]), a or n] for n, a in s[2]]
 
 
 # ---------------------------------------------------------------------------------------------
@@ -209,8 +243,9 @@ def ast_blocks(src):
                 cur["stmts"].append(["import", [[a.name.split("."), a.asname] for a in st.names]])
             else:
                 mod = "." * st.level + (st.module or "")
-                cur["imports"] += [[mod + "." + a.name, a.asname or a.name] for a in st.names]
-                cur["stmts"].append(["from", mod.split("."), [[a.name, a.asname] for a in st.names]])
+                cur["imports"] += [[mod + ("" if mod.endswith(".") else ".") + a.name, a.asname or a.name] for a in st.names]
+                comps = [""] * st.level + (st.module.split(".") if st.module else [])
+                cur["stmts"].append(["from", comps, [[a.name, a.asname] for a in st.names]])
         else:
             cur = None
     return out
@@ -427,7 +462,8 @@ def run_tagged(src, nsnames, docs=()):
     g.failed = []
     bdict = dict(builtins.__dict__)
     bdict["__build_class__"] = build_class
-    g.update({G.REG: reg_, G.DEC: (lambda v: (lambda f: f)), "__name__": "prog", "__builtins__": bdict})
+    g.update({G.REG: reg_, G.DEC: (lambda v: (lambda f: f)), "__name__": PACKAGE + ".prog", "__package__": PACKAGE,
+              "__builtins__": bdict})
     finder = Finder()
     sys.meta_path.insert(0, finder)
     saved = set(sys.modules)
@@ -585,7 +621,20 @@ def stale_dotted_key(prog):
                 if a is None and len(d) > 1 and sites.get(d[0], 0) > plain_roots.get(d[0], 0):
                     hit.append(1)
     c05.walk(prog, f)
-    return bool(hit)
+    if hit:
+        return True
+    # the same through an attribute store: `x.a = v` (or `x.a += v`) leaves the dotted key `x.a`; a later import of x
+    # is not marked by reads of `x.a...`
+    roots = set()
+
+    def h(s, p):
+        if s[0] == "aug":
+            if s[2]:
+                roots.add(s[1])
+        else:
+            roots.update(store_roots(s))
+    c05.walk(prog, h)
+    return bool(roots & set(binders(prog)))
 
 
 def deferred_reads(prog):
@@ -746,7 +795,7 @@ KNOWN_WHAT = {
     "F10-firstiter": "a lambda inside the first iterable of a comprehension reads a global that is also the comprehension target: the read is resolved to the target, the import of the global is removed",
     "F10-classcomp": "a nested scope in a class body reads a global that the class also binds at class level: the read is resolved to the class-level name, the import of the global is removed",
     "docpromo": "every import in front of a bare string literal is removed (or moved), so the string becomes the module docstring",
-    "F16b": "`import x.y` leaves a dotted key `x.y` in the scope; after `x` is rebound a read of `x.y` still resolves to that key, so the rebinding import stays unmarked and is removed",
+    "F16b": "`import x.y` (or an attribute store `x.y = v`) leaves a dotted key `x.y` in the scope; after `x` is (re)bound by an import a read of `x.y` still resolves to that key, so that import stays unmarked and is removed",
     "F10-class": "a class's own name is stored inside its body scope: an import of that name read in the class body is reported unused",
     "F7": "an import block binds one name to two different objects; sorting the block changes which binding wins",
     "F31": "a function's own name is stored in its body scope: an import of that name read through the function is reported unused",
